@@ -385,7 +385,28 @@ def c17_run(case):
         return None
     forever = set(case.get('forever', []))
     s, jobs = build(n, edges, forever=forever)
-    return c17_queries(s, jobs, n, edges, forever, rng, n <= 4)
+    err = c17_queries(s, jobs, n, edges, forever, rng, n <= 4)
+    if err or not n:
+        return err
+    # a scheduler that is not closed (some members require jobs that are not members: an outsider, or a job that was
+    # removed): predecessors / predecessors_upstream still answer with members only ("exactly the members it requires")
+    out = [J('outsider-%d' % k) for k in range(2)]
+    out[1].requires(out[0])
+    for i in range(n):
+        if rng.random() < 0.4:
+            jobs[i].requires(rng.choice(out))
+    req = {i: {b for (a, b) in edges if a == i} for i in range(n)}
+    for st in ([[i] for i in range(n)] + [rng.sample(range(n), min(2, n))]):
+        sj = [jobs[i] for i in st]
+        got = s.predecessors(*sj)
+        exp = set().union(*[req[i] for i in st])
+        if ids(got) != ids(jobs[i] for i in exp):
+            return 'predecessors(%s) on a scheduler that is not closed: %s, members required are %s' % (st, got, sorted(exp))
+        got = s.predecessors_upstream(*sj)
+        exp = closure(req, st)
+        if ids(got) != ids(jobs[i] for i in exp):
+            return 'predecessors_upstream(%s) on a scheduler that is not closed: %s, expected %s' % (st, got, sorted(exp))
+    return None
 
 
 # ----------------------------------------------------------------------------- C16
@@ -455,6 +476,36 @@ def c16_run(case):
     res2, _ = quiet(top.sanitize)
     if res2 is not True:
         return 'second sanitize() returned %r' % (res2,)
+    # the same tree edited again (new dangling requirements at random places, or a member removed that others
+    # require) and sanitized again: nothing an earlier call left behind may matter
+    everything = [j for s in scheds for j in s.jobs]
+    outsiders = [J('late-out'), top]
+    for _round in range(2):
+        if not everything:
+            break
+        for _ in range(rng.randint(0, 3)):
+            a, b = rng.choice(everything), rng.choice(everything + outsiders)
+            if a is not b:
+                a.requires(b)
+        if rng.random() < 0.4:
+            s = rng.choice(scheds)
+            atoms = [j for j in s.jobs if isinstance(j, J)]      # (a removed nested scheduler would leave the tree)
+            if atoms:
+                s.remove(rng.choice(atoms))
+        before = {id(j): set(j.required) for s in scheds for j in s.jobs}
+        need_removal = any(r not in s.jobs for s in scheds for j in s.jobs for r in j.required)
+        res, _ = quiet(top.sanitize)
+        for s in scheds:
+            for j in s.jobs:
+                for r in j.required:
+                    if r not in s.jobs:
+                        return 'after editing and sanitizing again a requirement is not a member of the same scheduler'
+                for r in before[id(j)]:
+                    if r in s.jobs and r not in j.required:
+                        return 'sanitizing again removed a requirement between two members of one scheduler'
+        if res is not (not need_removal):
+            return 'after editing: sanitize() returned %r but removals needed = %r' % (res, need_removal)
+        everything = [j for s in scheds for j in s.jobs]
     return None
 
 
